@@ -9,6 +9,7 @@ import (
 	"strings"
 	"sync"
 	"testing"
+	"unicode/utf8"
 
 	"github.com/dadrus/heimdall/internal/config"
 	rconfig "github.com/dadrus/heimdall/internal/rules/config"
@@ -117,6 +118,8 @@ func c08BasePaths() []string {
 			p+"/lit/annual%20report", p+"/lit/annual%20reports", p+"/lit/annual",
 			// characters which net/url does not accept unescaped in an encoded path (it then falls back to re-escaping the decoded path)
 			p+"/users/{id}", p+"/files/a|b/c^d", p+"/users/%7Bid%7D", p+"/t/<x>/mid/`y`",
+			// raw (not percent-encoded) octets >= 0x80: two- and three-byte UTF-8 characters and a lone Latin-1 octet
+			p+"/users/\u00e4", p+"/files/\u20acx/c", p+"/t/\u00e4b/mid/y\u20ac", p+"/users/a\xe4b", p+"/files/\xe4/pw",
 		)
 	}
 	out = append(out, "/unknown/x", "/", "/mix/f/report", "/mix/f/zzzreport", "/mix/g/report", "/mix/g/zzz.x", "/mix/f/100%2541", "/mix/h/report", "/mix/h/a.b")
@@ -226,8 +229,15 @@ func c08Base(r *core.Run, tr *trio, rng *rand.Rand, base string, nSpell int) {
 	if strings.HasPrefix(base, "/mix/") {
 		setting = "mix" // the setting is the one of the rule that answers (read from its id)
 	}
+	rawHigh := strings.IndexFunc(base, func(c rune) bool { return c >= 0x80 }) >= 0
 	for _, ep := range entryPoints {
+		if ep == "grpc" && !utf8.ValidString(base) {
+			continue // a protobuf string field cannot carry such a path
+		}
 		canon := tr.c08Send(ep, base)
+		if rawHigh {
+			r.Count("base_paths_with_raw_octets_above_0x7f", 1)
+		}
 		if canon.Positive {
 			r.Count("canonical_positive", 1)
 		}
@@ -235,6 +245,9 @@ func c08Base(r *core.Run, tr *trio, rng *rand.Rand, base string, nSpell int) {
 		if canon.Positive && (strings.HasSuffix(canon.Rule, "-single") || strings.HasSuffix(canon.Rule, "-escw") || strings.Contains(canon.Rule, "-mix")) {
 			seg := base[strings.LastIndex(base, "/")+1:]
 			want, _ := url.PathUnescape(seg)
+			if !utf8.ValidString(want) {
+				want = strings.ToValidUTF8(want, "\uFFFD") // the captures are echoed as JSON
+			}
 			got := ""
 			for _, v := range canon.Caps {
 				got = v
@@ -284,8 +297,9 @@ func c08Base(r *core.Run, tr *trio, rng *rand.Rand, base string, nSpell int) {
 		if seg == "" {
 			continue
 		}
+		mid := c08Mid(seg)
 		for _, hex := range []string{"%2F", "%2f"} {
-			for _, pos := range []int{0, len(seg) / 2, len(seg)} {
+			for _, pos := range []int{0, mid, len(seg)} {
 				// do not split an existing escape
 				if pos > 0 && pos < len(seg) && (seg[pos-1] == '%' || (pos >= 2 && seg[pos-2] == '%')) {
 					continue
@@ -302,7 +316,7 @@ func c08Base(r *core.Run, tr *trio, rng *rand.Rand, base string, nSpell int) {
 			}
 			// several encoded slashes in one segment (mixed hex case)
 			other := map[string]string{"%2F": "%2f", "%2f": "%2F"}[hex]
-			for _, multi := range []string{hex + seg + hex, hex + seg[:len(seg)/2] + other + seg[len(seg)/2:] + hex} {
+			for _, multi := range []string{hex + seg + hex, hex + seg[:mid] + other + seg[mid:] + hex} {
 				if strings.Contains(seg, "%") {
 					continue // do not split an existing escape
 				}
@@ -315,6 +329,16 @@ func c08Base(r *core.Run, tr *trio, rng *rand.Rand, base string, nSpell int) {
 			}
 		}
 	}
+}
+
+// c08Mid is the middle of the segment, moved back to the start of a character (an encoded slash is an octet of its own and
+// cannot stand inside a multi-byte character of valid UTF-8).
+func c08Mid(seg string) int {
+	mid := len(seg) / 2
+	for mid > 0 && mid < len(seg) && !utf8.RuneStart(seg[mid]) {
+		mid--
+	}
+	return mid
 }
 
 // which rule would the path with the encoded slash (one segment) match, and under which setting?
@@ -418,7 +442,7 @@ func c08Forwarded(r *core.Run, tr *trio) {
 	rng := r.Stream("c08-forwarded")
 	var paths []string
 	for i, b := range c08BasePaths() {
-		if i%4 == 0 || strings.ContainsAny(b, "|{^<`") {
+		if i%4 == 0 || strings.ContainsAny(b, "|{^<`") || strings.IndexFunc(b, func(c rune) bool { return c >= 0x80 }) >= 0 {
 			paths = append(paths, b)
 		}
 	}
@@ -426,7 +450,7 @@ func c08Forwarded(r *core.Run, tr *trio) {
 		last := strings.LastIndex(base, "/")
 		spellings := []string{base, respell(rng, base, 2)}
 		if seg := base[last+1:]; seg != "" && !strings.Contains(seg, "%") {
-			spellings = append(spellings, base[:last+1]+seg[:len(seg)/2]+"%2F"+seg[len(seg)/2:], base[:last+1]+"%2f"+seg)
+			spellings = append(spellings, base[:last+1]+seg[:c08Mid(seg)]+"%2F"+seg[c08Mid(seg):], base[:last+1]+"%2f"+seg)
 		}
 		for _, sp := range spellings {
 			direct := tr.c08Send("decision", sp)
